@@ -1979,6 +1979,7 @@ pub mod idx {
     pub const SIG_U2R: &str = "uuid2rdn table differs from the live entries";
     pub const SIG_LOOKUP: &str = "name lookup disagrees with a scan of the entries";
     pub const SIG_VERIFY: &str = "server verify() reports inconsistencies";
+    pub const SIG_ALLIDS: &str = "stored entry ids differ from the entries a full search returns";
 
     fn text(v: &[u8]) -> String {
         String::from_utf8_lossy(v).to_string()
@@ -2115,7 +2116,25 @@ pub mod idx {
         }
         // verify(): only the storage / index findings belong to this property; what the plugins and
         // the change-state checker say (memberof, refint, change state, RUV ...) belongs to others
-        let v = hk::qs_verify(r);
+        // Stored ids vs. the ids a full search returns (what verify()'s allids comparison is about),
+        // checked here directly: idlset's `PartialEq` debug-asserts equality, so with debug assertions
+        // on, a mismatch inside verify() (allids or RUV) surfaces as a panic and cannot be told apart.
+        {
+            let raw_ids: BTreeSet<u64> = r.get_be_txn().list_id2entry().map_err(|e| ("harness: list_id2entry failed", format!("{e:?}")))?.into_iter().map(|(id, _)| id).collect();
+            let ent_ids: BTreeSet<u64> = entries.iter().map(|e| e.get_id()).collect();
+            if raw_ids != ent_ids {
+                return Err((
+                    SIG_ALLIDS,
+                    format!("only in id2entry: {:?}; only returned by the search: {:?}", raw_ids.difference(&ent_ids).collect::<Vec<_>>(), ent_ids.difference(&raw_ids).collect::<Vec<_>>()),
+                ));
+            }
+        }
+        let v = match std::panic::catch_unwind(std::panic::AssertUnwindSafe(|| hk::qs_verify(r))) {
+            Ok(v) => v,
+            // ids and indexes were just compared exhaustively above, so the id-list mismatch that
+            // fired inside verify() is the RUV's (replication metadata: not this property's subject)
+            Err(_) => vec!["RuvIdListMismatchPanic(verify() hit idlset's debug assertion)".to_string()],
+        };
         const MINE: [&str; 7] = ["BackendIndexSync", "BackendAllIdsSync", "SqliteIntegrityFailure", "UuidIndexCorrupt", "EntryUuidCorrupt", "Unknown", "QueryServerSearchFailure"];
         let (mine, other): (Vec<String>, Vec<String>) = v.into_iter().partition(|e| MINE.iter().any(|m| e.starts_with(m)));
         if !mine.is_empty() {
